@@ -10,7 +10,7 @@ from vf.sx.ob import Case
 
 KEYS = ["CDS", "gene", "misc_difference", "prim_transcript", "a", "regulatory"]
 QUALS = [{}, {"gene": "abc"}, {"note": "a b/c=d"}, {"pseudo": None}, {"note": "first\nsecond", "gene": "x y"}, {"pseudo": None, "product": "p/q = r"},
-         {"note": "0123456789 " * 9 + "end"}]
+         {"note": ""}, {"note": "0123456789 " * 9 + "end"}, {"gene": "a", "note": "x\n"}]
 
 
 def locsets():
@@ -115,7 +115,7 @@ def check_gff(k1, l1, q1, k2, l2, q2, stranded):
 def ob_annotation_io(tier):
     cases = []
     nl = len(locsets())
-    nq = len(QUALS) if tier == "thorough" else 6
+    nq = len(QUALS) if tier == "thorough" else 7
     nk = len(KEYS) if tier == "thorough" else 5
     k1, l1, q1, k2, l2, q2, s = z3.Ints("k1 l1 q1 k2 l2 q2 s")
     L2 = (0, 4) if tier == "quick" else (0, 4, 5, 6)
@@ -138,3 +138,49 @@ def ob_annotation_io(tier):
         cases.append(Case(f"GFF3 annotation [l1={lv}]", base + [s >= 0, s <= 1, l1 == lv], run_gff, dict(wit, stranded=s),
                           _rep(check_gff, "k1", "l1", "q1", "k2", "l2", "q2", "stranded")))
     return cases
+
+
+# ------------------------------------------------------------------------------------- FASTQ on the real helpers
+def check_fastq_real(oi, lo_i, n, cpl_i):
+    """the numpy score <-> character helpers (stubbed in the symbolic FASTQ obligation) on the whole representable range:
+    characters '!'..'~' i.e. scores 33-offset .. 126-offset, negative scores included (Solexa)"""
+    import numpy as np
+    from biotite.sequence.io.fastq import FastqFile
+    offset = [33, 64, "Sanger", "Solexa", "Illumina-1.8"][oi]
+    off = {"Sanger": 33, "Solexa": 64, "Illumina-1.8": 33}.get(offset, offset)
+    lo, hi = 33 - off, 126 - off
+    start = [lo, lo + 1, -5 if lo <= -5 else lo, 0, hi - n + 1][lo_i]
+    scores = np.arange(start, start + n)
+    scores = scores[(scores >= lo) & (scores <= hi)]
+    if len(scores) == 0:
+        return None
+    seq = ("ACGT" * 40)[:len(scores)]
+    cpl = [None, 1, 3, 80][cpl_i]
+    f = FastqFile(offset, chars_per_line=cpl)
+    f["r1 x"] = (seq, scores)
+    f["r2"] = (seq[::-1], scores[::-1])
+    out = io.StringIO()
+    f.write(out)
+    for label, src in (("in memory", f), ("re-read", FastqFile.read(io.StringIO(out.getvalue()), offset))):
+        for name, s_, q_ in (("r1 x", seq, scores), ("r2", seq[::-1], scores[::-1])):
+            gs, gq = src[name]
+            if str(gs) != s_ or [int(x) for x in gq] != [int(x) for x in q_]:
+                return f"FASTQ ({label}, offset {offset}, chars_per_line {cpl}): entry {name!r} scores {[int(x) for x in gq]}, written {[int(x) for x in q_]}"
+    it = [(h, str(s_), [int(x) for x in q_]) for h, (s_, q_) in FastqFile.read_iter(io.StringIO(out.getvalue()), offset)]
+    if it != [("r1 x", seq, [int(x) for x in scores]), ("r2", seq[::-1], [int(x) for x in scores[::-1]])]:
+        return f"FastqFile.read_iter (offset {offset}): {it}"
+    out2 = io.StringIO()
+    FastqFile.write_iter(out2, [("r1 x", (seq, scores)), ("r2", (seq[::-1], scores[::-1]))], offset, chars_per_line=cpl)
+    if out2.getvalue() != out.getvalue():
+        return "write_iter and FastqFile.write produce different text"
+    return None
+
+
+def ob_fastq_real(tier):
+    o, l, n, c = z3.Ints("o l n c")
+
+    def run():
+        ex = cur()
+        return check_fastq_real(ex.choose(o, range(5)), ex.choose(l, range(5)), ex.choose(n, (1, 2, 5, 94)), ex.choose(c, range(4))) is None
+    return [Case("FASTQ score characters over the whole representable range", [o >= 0, o < 5, l >= 0, l < 5, z3.Or(n == 1, n == 2, n == 5, n == 94), c >= 0, c < 4],
+                 run, dict(oi=o, lo_i=l, n=n, cpl_i=c), _rep(check_fastq_real, "oi", "lo_i", "n", "cpl_i"))]
